@@ -152,3 +152,14 @@ func (r *Report) knownStillReproduces(kf *KnownFinding) bool {
 	fmt.Printf("note: recorded replay %s of known finding %s no longer fails; treating the failed obligation as a new violation\n", kf.Replay, kf.Obligation)
 	return false
 }
+
+// knownBounded returns the open known finding recorded for a bounded stand-in.
+func (r *Report) knownBounded(name string) *KnownFinding {
+	known := loadKnown(filepath.Join(r.verif, "known_findings.json"))
+	for i := range known {
+		if known[i].Property == r.prop && known[i].Obligation == "bounded:"+name && known[i].Status == "open" {
+			return &known[i]
+		}
+	}
+	return nil
+}
